@@ -788,13 +788,13 @@ class Executor:
         names = [o[0] for o in items] if style == "named" else None
         p = re.sub(r"::<.*>(?=::[A-Za-z_][A-Za-z0-9_]*$)", "", path)      # Option::<T>::Some -> Option::Some
         p = re.sub(r"::<.*>$", "", p)
+        last = p.split("::")[-1]
+        # enum variant named by its last segment, the enum being the destination type (MIR trims paths)
+        if dest_ty and dest_ty != "?" and self.enums.index(dest_ty, last) is not None and enum_key(dest_ty) != last:
+            return Agg(dest_ty, last, vals, names)
         m = re.fullmatch(r"(.*)::([A-Za-z_][A-Za-z0-9_]*)", p)
-        if m and self.enums.index(m.group(1), m.group(2)) is not None and self.enums.variants(m.group(1)) is not None \
-                and not (self.enums.variants(p) is not None and style == "named" and False):
-            # enum variant (the enum table knows `Type::Variant`); careful: struct named like a variant is a struct when the
-            # destination type says so
-            if enum_key(dest_ty) == enum_key(m.group(1)) or enum_key(dest_ty) not in (enum_key(p),):
-                return Agg(m.group(1) if "<" not in dest_ty else dest_ty, m.group(2), vals, names)
+        if m and self.enums.index(m.group(1), m.group(2)) is not None:
+            return Agg(m.group(1) if "<" not in (dest_ty or "") else dest_ty, m.group(2), vals, names)
         return Agg(dest_ty if dest_ty and dest_ty != "?" else p, None, vals, names)
 
     # ------------------------------------------------------------------ feasibility
